@@ -53,7 +53,9 @@ def roles(f):
     for n, b in find('V_rev.append(find_reversed_path(V_p))', f.node):
         lp = enclosing(n, ast.For)
         if lp is not None and isinstance(lp.iter, ast.Name) and isinstance(lp.target, ast.Name) and lp.target.id == b['V_p']:
-            R['all_rev'], R['all_fwd'] = b['V_rev'], lp.iter.id
+            R['all_rev'], R['all_fwd'], R['twin_stmt'] = b['V_rev'], lp.iter.id, lp
+    for n, b in find('V_rev = [find_reversed_path(V_p) for V_p in V_fwd]', f.node):
+        R['all_rev'], R['all_fwd'], R['twin_stmt'] = b['V_rev'], b['V_fwd'], n
     # the grouped requests: [e for e in requests if e.request_id in <ids of the groups>]
     for n in walk_no_nested(f.node):
         if isinstance(n, ast.Assign) and isinstance(n.targets[0], ast.Name):
@@ -180,9 +182,11 @@ def r1_acceptance(ctx):
     ok = 'all_rev' in R and len(short_table_of(f, R, R['all_rev'])) == 1 and len(short_table_of(f, R, R['all_fwd'])) >= 1
     if ok:
         # nothing reorders one list after the twins were computed
-        lp_rev = [enclosing(n, ast.For) for n, b in __import__('gscan.pattern', fromlist=['find']).find('V_rev.append(find_reversed_path(V_p))', f.node)][0]
-        later = [n for n in lp_rev._parent.body if n.lineno > lp_rev.lineno and isinstance(n, ast.Assign) and
-                 ast.unparse(n.targets[0]) in (R['all_fwd'], R['all_rev'])]
+        lp_rev = R['twin_stmt']
+        later = [n for n in lp_rev._parent.body if n.lineno > lp_rev.lineno and (
+            (isinstance(n, ast.Assign) and ast.unparse(n.targets[0]) in (R['all_fwd'], R['all_rev'])) or
+            (isinstance(n, ast.Expr) and isinstance(n.value, ast.Call) and isinstance(n.value.func, ast.Attribute) and
+             n.value.func.attr in ('sort', 'reverse', 'insert', 'pop', 'remove') and ast.unparse(n.value.func.value) in (R['all_fwd'], R['all_rev'])))]
         ok = not later
     ctx.check('R1.acceptance', f'{s} reversed table', ok, key(f, 'reversed-table'),
               'the reversed table is not find_reversed_path of every enumerated path in the same order')
@@ -249,6 +253,11 @@ def r2_shrink(ctx):
             tt = cp[0]['V_t']
             rm = find(f'{tt}.remove(V_s)', lp)
             ok = len(rm) == 1 and any(mstmt(f'{rc.params[0]}[{kk}] = {tt}', n) is not None for n in lp.body) and not muts
+            # a combination is dropped exactly when THIS request uses another path object in it: identity, no other filter
+            scan = [n for n in lp.body if isinstance(n, ast.For)]
+            ok = ok and len(scan) == 1 and mstmt(
+                f'for V_s in {cc}:\n    for V_p in V_s:\n        if {rc.params[1]}[id(V_p)].req.request_id == {rc.params[2]}.request_id:\n'
+                f'            if id(V_p) != id({rc.params[3]}):\n                {tt}.remove(V_s)\n                break', scan[0]) is not None
     ctx.check('R2.shrink-only', site(rc), ok, key(rc, 'only-removes'), 'remove_candidate does more than remove combinations from each candidate set')
     # other mutators on candidates[...] in the main function are removes
     for c in walk_no_nested(f.node):
